@@ -482,4 +482,22 @@ def r10_parallel_rows_read_their_own_columns(ctx):
     r9_dask_column_cursor(ctx)
 
 
-RULES = [r10_parallel_rows_read_their_own_columns, r9_files_attributed_one_to_one, r7_every_task_runs_its_own_pipeline, r8_evolved_algorithm_comes_back, r6_names_values_same_order, r1_sibling_run_space, r2_no_shared_state_in_task, r3_one_suffix_per_run, r4_task_independence, r5_island_order]
+def r11_task_results_fit_declared_types(ctx):
+    """xr.apply_ufunc(dask="parallelized") converts whatever a task returns to the dtype declared in `output_dtypes`, which run_pipelines_with_dask takes from the FIRST (metadata) run only: a task must therefore check (np.can_cast / dtype comparison ending in raise) or widen its arrays before handing them back, otherwise a run whose bucket has a wider type than the first run's (e.g. a sweep of adc_bit_resolution 8 -> 16) is silently wrapped - parallel differs from sequential."""
+    from sa.astutil import flow_exprs
+
+    t = ctx.func(f"{OD}:_run_pipelines_tuple_to_array")
+    rp = ctx.func(f"{OD}:run_pipelines_with_dask")
+    au = [c for c in calls_in(rp.node) if call_name(c).endswith("apply_ufunc")]
+    declared = bool(au) and kw(au[0], "output_dtypes") is not None
+    if not declared:
+        ctx.ok(t.qual + "#declared-dtype", "no output dtype is declared: nothing is converted", where=rp, node=rp.node)
+        return
+    src = expand(rp, kw(au[0], "output_dtypes"))
+    from_first = any("first" in norm(x) or "metadata" in norm(x) for x in flow_exprs(rp, src)[1])
+    checks = [n for n in ast.walk(t.node) if (isinstance(n, ast.Call) and call_name(n).split(".")[-1] in ("can_cast", "result_type", "promote_types", "astype")) or (isinstance(n, ast.Compare) and any(isinstance(x, ast.Attribute) and x.attr == "dtype" for x in ast.walk(n)))]
+    ok = bool(checks) or not from_first
+    ctx.check(ok, t.qual + "#declared-dtype", "task results are checked against / converted to the declared output types" if ok else "the output dtypes given to apply_ufunc come from the first run only and the task hands back its arrays unchecked: a later run whose bucket has a wider type (adc_bit_resolution swept 8 -> 16: uint16 into uint8) is silently wrapped on the dask path, sequential execution keeps the values", where=t, node=t.node)
+
+
+RULES = [r11_task_results_fit_declared_types, r10_parallel_rows_read_their_own_columns, r9_files_attributed_one_to_one, r7_every_task_runs_its_own_pipeline, r8_evolved_algorithm_comes_back, r6_names_values_same_order, r1_sibling_run_space, r2_no_shared_state_in_task, r3_one_suffix_per_run, r4_task_independence, r5_island_order]
